@@ -22,6 +22,13 @@ claim("C10", "Error-discipline and guard-coverage rules on every path: each fall
       "and the deadline handed to the transport is the configured one. Byte-level prefix validity after a fault is not decided.",
       NOTE, "path-sensitive error-propagation and guard-dominance analysis on go/ssa", "DESIGN.md §4 C10")
 
+claim("C04", "Exhaustive static decision table of the header validator: for all 65536 values of the first two header bytes in all 8 protocol states, every path of advanceFrame "
+      "compatible with a forbidden header ends in handleProtocolError before any payload read, unmasking, handler call or delivery (the validator's own branch terms are evaluated "
+      "over the finite alphabet inside the analyser; nothing is executed). Plus: close-code table over all 16-bit codes, UTF-8/close-code guards dominate the close handler, "
+      "negative 64-bit lengths are refused before any read, read errors are sticky on every path of NextReader/messageReader.Read, and the 1002 close is sent. "
+      "Not decided: that earlier messages were delivered intact (value property).",
+      NOTE, "path enumeration + finite-domain guard-table extraction on go/ssa; error-stickiness dataflow", "DESIGN.md §4 C04")
+
 REASON_NOT_BUILT = "rules for this property are not built yet in this revision (see DESIGN.md §4 for the planned static rules); nothing is claimed"
 
 def main():
